@@ -9,7 +9,7 @@ import eng
 import gen
 import world as W
 from common import VERIF, first_diff, run_driver
-from framework import known_findings, lean_obligations, scn_hash
+from framework import known_findings, lean_obligations, scn_hash, safe_probe
 
 PROFILE = gen.Profile(
     max_states=4, extra_trans=(1, 5), p_multi_event=0.3,
@@ -397,7 +397,7 @@ def probe_shared_ingredients(seed, n):
 
 def run(ctx):
     lean_obligations(ctx)
-    ncases, sf = probe_shared_ingredients(ctx.seed, 60 if ctx.tier == "quick" else 1200)
+    ncases, sf = safe_probe(probe_shared_ingredients, ctx.seed, 60 if ctx.tier == "quick" else 1200, pair=True)
     ctx.coverage["shared_ingredients_cases"] = ncases
     if sf:
         ctx.violation(ctx.write_replay("shared_ingredients.txt", "\n".join(sf[:10]) + "\n"), sf[0][:200])
